@@ -237,6 +237,23 @@ class RefMV:
         return self._need().get(0, IP())
 
     @property
+    def _values(self):
+        return tuple(self._need().values())
+
+    @_values.setter
+    def _values(self, vals):
+        vals = list(vals)
+        keys = list(self._need())
+        if len(vals) != len(keys):
+            raise OutOfSubset('_values assigned a sequence of another length')
+        self.comp = {k: IP.lift(v) if not isinstance(v, IP) else v for k, v in zip(keys, vals)}
+
+    def kvc_setattr(self, interp, name, v):
+        if name != '_values':
+            raise OutOfSubset(f'attribute store .{name} on a multivector')
+        self._values = v            # rescaling the coefficients of a freshly computed term (codegen_outerexp)
+
+    @property
     def grades(self):
         return tuple(sorted({O.pc(k) for k in self._need()}))
 
@@ -262,6 +279,7 @@ def _generic(d, sig):
     signs = sym('signs', on_getitem=lambda interp, me, idx: O.bsign(idx[0], idx[1], world['sig']))
     world['alg'] = sym('algebra', attrs={'d': d, 'blades': sym('blades', attrs={'e': one}), 'signs': signs})
     world['alg'].kvc_len = lambda: 2 ** d
+    world['alg'].attrs['scalar'] = sym('alg.scalar', callable_result=lambda interp, me, a, k: RefMV(world, {0: IP.lift(a[0][0])} if a and a[0] and a[0][0] else {}))
     x = RefMV(world, {k: IP.var(k) for k in range(2 ** d)})
     return world, x
 
@@ -499,3 +517,44 @@ def vc_div_generic(H, tier='quick'):
                            meta={'differing_blades': bad[:8]})
                 return r
             H.run_paths(fuc, f'div,d={d},signature={list(sig)}', body)
+
+
+def vc_outerexp_generic(H, tier='quick'):
+    """C19: codegen_outerexp / outersin / outercos on generic operands (every single grade, and the fully generic element) return
+    sum_k x^(wedge k) / k!  (all k, odd k, even k; k <= d) as polynomial identities over Q; the outer product is signature
+    independent, so one signature per dimension d <= 4 (thorough: 5) decides all."""
+    import math
+    fs = {n: H.fn(REL, f'codegen_{n}') for n in ('outerexp', 'outersin', 'outercos')}
+    for d in (1, 2, 3, 4) + ((5,) if tier != 'quick' else ()):
+        sig = [1] * d
+        for name, fuc in fs.items():
+            def body(ctx, d=d, sig=sig, name=name, fuc=fuc):
+                # operands without scalar part: their wedge powers vanish beyond k = d, so "the finite sum" is well defined
+                shapes = [(f'grade {g}', (lambda k, g=g: O.pc(k) == g)) for g in range(1, d + 1)]
+                if d <= 4:
+                    shapes.append(('generic without scalar part', lambda k: O.pc(k) >= 1))
+                failing = []
+                for sn, sf in shapes:
+                    world, _ = _generic(d, sig)
+                    x = RefMV(world, {k: IP.var(k) for k in range(2 ** d) if sf(k)})
+                    wn = sym('warnings', attrs={'warn': sym('warn', callable_result=lambda i, m, a, k: None)})
+                    r = H.closure(Interp(ctx, source_name=REL), fuc, {'warnings': wn})(x)
+                    if not isinstance(r, RefMV):
+                        raise OutOfSubset(f'codegen_{name} returned {type(r).__name__}')
+                    got = {k: v for k, v in r._need().items() if v}
+                    want, term = {}, {0: IP({(): 1})}
+                    for k in range(0, d + 1):
+                        if k:
+                            term = _gp(term, x.comp, sig, filt=lambda r_, s_, t: t == r_ + s_)
+                        if (name == 'outersin' and k % 2 == 0) or (name == 'outercos' and k % 2 == 1):
+                            continue
+                        for kk, vv in term.items():
+                            want[kk] = want.get(kk, IP()) + vv / math.factorial(k)
+                    want = {k: v for k, v in want.items() if v}
+                    bad = sorted(k for k in set(got) | set(want) if not (got.get(k, IP()) == want.get(k, IP())))
+                    if bad:
+                        failing.append((sn, bad[:4]))
+                which = {'outerexp': 'all k', 'outersin': 'odd k', 'outercos': 'even k'}[name]
+                ctx.oblige(f'codegen_{name} == sum over {which} <= d of x^(wedge k) / k! on generic operands of every single grade >= 1 (and all of them together)',
+                           not failing, meta={'failing_shapes': failing[:6]})
+            H.run_paths(fuc, f'generic,d={d}', body)
